@@ -26,7 +26,7 @@ ASSUMPTIONS = ['fibre lengths are whole kilometres so that optimality ties are e
                'include lists mixing an unsatisfiable LOOSE entry with satisfiable STRICT entries are not judged '
                '(the statement does not define that mix)', 'no parallel links between one ROADM pair']
 REQUIRED_COUNTERS = {'requests_judged': 150, 'optimality_checks': 100, 'strict_unsatisfiable': 5, 'loose_fallback': 5,
-                     'include_order_checks': 40, 'reverse_path_checks': 30}
+                     'include_order_checks': 40, 'reverse_path_checks': 30, 'grouped_groups_judged': 40}
 CASE_TIMEOUT = {'quick': 200, 'thorough': 400}
 
 
@@ -267,4 +267,42 @@ def run_case(case, ctx):
         if any(v['mechanism'] is None for v in ctx.violations):
             return
     if not ctx.violations:
+        grouped_batches(ctx, rng, ej, tj, equipment, network, model)
+    if not ctx.violations:
         ctx.dump.clear()
+
+
+class _RouteClausesOnly:
+    """Case context seen by the group workload of C12 when it runs for C11: only what C11 states about a route (real,
+    loop-free, STRICT entries crossed) is kept; link sharing inside a group is C12's subject."""
+    KEEP = ('strict-not-respected', 'endpoints', 'loop', 'no-such-link')
+
+    def __init__(self, ctx):
+        self._ctx = ctx
+
+    def violation(self, monitor, msg, witness=None, mechanism=None):
+        if monitor in self.KEEP:
+            self._ctx.violation('grouped:' + monitor, msg, witness, mechanism)
+
+    def count(self, name, n=1):
+        self._ctx.count('grouped_' + name, n)
+
+    def nontrivial(self, fp):
+        pass
+
+    def sample(self, obj):
+        pass
+
+    def __getattr__(self, name):
+        return getattr(self._ctx, name)
+
+
+def grouped_batches(ctx, rng, ej, tj, equipment, network, model):
+    """Requests that belong to a synchronisation group are routed by another part of the code: their routes must be
+    real, loop-free and cross their STRICT entries as well (optimality is not claimed for them)."""
+    from vf.props import c12
+    proxy = _RouteClausesOnly(ctx)
+    for b in range(2):
+        c12.run_batch(proxy, rng, ej, tj, equipment, network, model, b)
+        if ctx.violations:
+            return
